@@ -747,3 +747,94 @@ func streamDict() {
 		s.stat("class-" + strings.SplitN(results[i], " ", 2)[0])
 	}
 }
+
+// ---------- diatonic: info key describe -> text conv syllable -> write, for every key ----------
+
+func init() { streams["diatonic"] = streamDiatonic }
+
+func seqStrings(n *yaml.Node) []string {
+	var out []string
+	if n == nil {
+		return out
+	}
+	for _, x := range n.Content {
+		out = append(out, x.Value)
+	}
+	return out
+}
+
+func streamDiatonic() {
+	s, done := openStream("diatonic")
+	defer done()
+	var spellings []string
+	for _, l := range "ABCDEFG" {
+		for _, a := range []string{"", "#", "b"} {
+			for _, m := range []string{"", "m"} {
+				spellings = append(spellings, string(l)+a+m)
+			}
+		}
+	}
+	type keyRes struct {
+		lines [][2]string
+	}
+	results := make([]keyRes, len(spellings))
+	parallel(len(spellings), func(i int) {
+		k := spellings[i]
+		var kr keyRes
+		res := runCrd(nil, 10*time.Second, "info", "key", "describe", "--key", k)
+		if res.class() != "ok" {
+			kr.lines = append(kr.lines, [2]string{"newscale " + hx(k), "none"})
+			results[i] = kr
+			return
+		}
+		var doc yaml.Node
+		must(yaml.Unmarshal(res.stdout, &doc))
+		root := doc.Content[0]
+		sc := mapGet(root, "scale")
+		num := func(key string) string {
+			if x := mapGet(sc, key); x != nil {
+				return x.Value
+			}
+			return "0"
+		}
+		hxs := func(xs []string) string {
+			var o []string
+			for _, x := range xs {
+				o = append(o, hx(x))
+			}
+			return pList(o)
+		}
+		tri := seqStrings(mapGet(mapGet(root, "diatonic"), "triads"))
+		sev := seqStrings(mapGet(mapGet(root, "diatonic"), "sevenths"))
+		kr.lines = append(kr.lines, [2]string{"newscale " + hx(k),
+			fmt.Sprintf("ok %s %s %s %s %s %s", hx(mapGet(sc, "key").Value), num("flat"), num("sharp"), hxs(seqStrings(mapGet(sc, "notes"))), hxs(tri), hxs(sev))})
+		for _, str := range append(append([]string{}, tri...), sev...) {
+			cc := convCase{"syllable", k, []byte(str + "[1]")}
+			out := runConv(cc)
+			kr.lines = append(kr.lines, [2]string{cc.req(), out})
+			// feed crd's own output into crd write --key K
+			cres := runCrd(cc.text, 10*time.Second, "text", "conv", "syllable", "--key", k)
+			if cres.class() != "ok" {
+				continue
+			}
+			is, err := rawFromYAML(cres.stdout)
+			if err != nil {
+				continue
+			}
+			wc := writeCase{flags: writeFlags{track: 1, instrument: "Piano", key: k}, is: is}
+			wres := runCrd(cres.stdout, 10*time.Second, "write", "--key", k)
+			real := wres.class()
+			if real == "ok" {
+				real = "ok " + hxb(wres.stdout)
+			}
+			kr.lines = append(kr.lines, [2]string{wc.req("write"), real})
+		}
+		results[i] = kr
+	})
+	for _, kr := range results {
+		for _, l := range kr.lines {
+			s.add(l[0], l[1])
+			s.stat(strings.SplitN(l[0], " ", 2)[0])
+		}
+	}
+}
